@@ -490,7 +490,9 @@ def run(tier, seed, proof):
                 "(every run): 'removed' (the kernel already dropped a watch that a handler then unregisters/frees/re-registers) and 'twoinst' (30 cases: an "
                 "instance whose last dispatch ended with an empty / non-empty watch set is unregistered later from a handler of ANOTHER instance in the middle "
                 "of that instance's batch, or at top level; the rest of the batch and later reads must still be delivered). One case in 20 "
-                "runs against the real kernel (private directory tree, events made by creating/deleting files and removing directories). Every structure is "
+                "runs against the real kernel (private directory tree, events made by creating/deleting files and removing directories). Plus a THREADS part: the "
+                "ThreadSanitizer program tsan_inotify (one instance per loop thread, concurrent bursts; 2 runs quick / 8 thorough), any data race in iv_inotify.c "
+                "is a violation (instances of different threads must share nothing). Every structure is "
                 "malloc'ed on its own and freed as early as the API allows (ASan). Every call, return value, handler invocation (watch, offset, record, "
                 "tree membership at entry) and end of walk is compared with the model; the oracle checks the log alone against the watch sets it "
                 "maintains from the API records. non-trivial = a multi-record read with a delivery plus a handler-driven (un)registration or a "
@@ -516,7 +518,37 @@ def run(tier, seed, proof):
             break
     res.extra["model_branch_coverage"] = cov
     res.extra["distributions"] = dist
+    if not res.impl_violations:
+        threads_part(tier, seed, res)
     return res
+
+
+def threads_part(tier, seed, res):
+    """the statement is per instance; instances of DIFFERENT threads run their reads and dispatches concurrently, so whatever iv_inotify.c
+    keeps between a read and the dispatch of its records must be private to the call. C14's ThreadSanitizer program tsan_inotify (one
+    instance per loop thread, bursts of different events) is run and any data race with a frame in iv_inotify.c is reported here: with shared
+    state a record read for one instance can be handed to a watch of another"""
+    from . import c14
+    ok, log = c14.build()
+    if not ok:
+        res.divergences.append(("ThreadSanitizer programs no longer build: " + log[-300:], None))
+        return
+    n = 0
+    for k in range(2 if tier == "quick" else 8):
+        sc = (f"inotify-threads-{k}", "inotify", seed * 10 + k, 2 + k % 2, 600 if tier == "quick" else 2000, 0, "" if k % 2 == 0 else c14.NO_EPOLL)
+        r = c14.run_scenario(sc)
+        res.evaluations += 1
+        n += 1
+        for rep in c14.parse_reports(r["err"]):
+            if rep["kind"] == "data race" and "iv_inotify.c" in rep["text"]:
+                pth = common.write_case(PROP, sc[0], ["# threads case (replayed by vlib/c14.py)"] + c14.case_text(sc, c14.excerpt(rep)), tier, seed, ext="tsan")
+                first = c14.excerpt(rep).splitlines()
+                res.impl_violations.append(("inotify:shared-between-threads", "implementation violates C20: two instances in two threads share state of iv_inotify.c "
+                                            "(ThreadSanitizer data race): records read for one instance can be dispatched to a watch of another: " +
+                                            " | ".join(x.strip() for x in first[1:6]), pth))
+                res.extra["threads_part_runs"] = n
+                return
+    res.extra["threads_part_runs"] = n
 
 
 def search(tier, seed, proof):
@@ -540,6 +572,9 @@ def search(tier, seed, proof):
 
 
 def replay(path):
+    if "# threads case" in open(path).read():
+        from . import c14
+        return c14.replay(path)
     ops = [l.strip() for l in open(path) if l.strip() and not l.startswith("#")]
     ok, log = build()
     if not ok:
